@@ -381,10 +381,10 @@ def run(ctx):
     # 1. TLC: every bounded history of the implementation-shaped model (with the minimal repairs) keeps the
     #    record sound; each code deviation alone must be found
     with cf.ThreadPoolExecutor(max_workers=6) as ex:
-        futs = [(cfg, want, what, ex.submit(T.run_tlc, "MC_C08", cfg, ctx.spec_dir, workers=2, allow_violation=True,
+        futs = [(cfg, want, what, ex.submit(T.run_tlc, "MC_C08", cfg, ctx.spec_dir, workers=1, allow_violation=True,
                                             scratch=ctx.scratch, timeout=600)) for cfg, want, what in SELFTESTS]
         # random deep behaviours of the same model on 6 sites (simulation mode, invariants checked on every state)
-        deep = ex.submit(T.run_tlc, "MC_C08", "MC_deep.cfg", ctx.spec_dir, workers=1, simulate="num=%d" % (400 if quick else 4000),
+        deep = ex.submit(T.run_tlc, "MC_C08", "MC_deep.cfg", ctx.spec_dir, workers=1, simulate="num=%d" % (250 if quick else 4000),
                          depth=12, seed=7 + ctx.seed, scratch=ctx.scratch, timeout=1800)
         ctx.model_check("MC_C08", "MC_quick.cfg" if quick else "MC_thorough.cfg", name="canon-histories",
                         require_actions=ACTIONS, timeout=2400, workers=8 if quick else 12)
